@@ -11,7 +11,7 @@ use refmodel::codec::decode_plain;
 use refmodel::tables::*;
 use serde_json::{json, Value};
 
-fn to_json(input: &Vec<u8>) -> Value {
+pub fn to_json(input: &Vec<u8>) -> Value {
     json!({"input_hex": hex(input), "input_len": input.len(), "input_preview": short_bytes(input)})
 }
 
